@@ -25,6 +25,7 @@ type Event struct {
 	T    time.Duration `json:"t"` // since trace start (virtual)
 	Kind string        `json:"k"`
 	Gen  int           `json:"gen,omitempty"`
+	If   string        `json:"if,omitempty"` // interface the event belongs to
 	ID   int           `json:"id,omitempty"`
 	Dst  string        `json:"dst,omitempty"`
 	Src  string        `json:"src,omitempty"`
@@ -157,6 +158,7 @@ type In struct {
 type Conn struct {
 	Tr  *Trace
 	Gen int
+	If  string
 
 	// WriteLatency is slept (virtually) inside every WriteTo.
 	WriteLatency time.Duration
@@ -192,7 +194,7 @@ func (c *Conn) Deliver(in In) {
 	c.mu.Lock()
 	c.queue = append(c.queue, in)
 	c.mu.Unlock()
-	c.Tr.Add(Event{Kind: "enqueue", Gen: c.Gen, ID: in.ID})
+	c.Tr.Add(Event{Kind: "enqueue", Gen: c.Gen, If: c.If, ID: in.ID})
 	c.signal()
 }
 
@@ -219,12 +221,12 @@ func (c *Conn) Writes() int {
 
 // ReadFrom implements system.Conn.
 func (c *Conn) ReadFrom() (ndp.Message, *ipv6.ControlMessage, netip.Addr, error) {
-	c.Tr.Add(Event{Kind: "read_wait", Gen: c.Gen})
+	c.Tr.Add(Event{Kind: "read_wait", Gen: c.Gen, If: c.If})
 	for {
 		c.mu.Lock()
 		if c.expired {
 			c.mu.Unlock()
-			c.Tr.Add(Event{Kind: "read_timeout", Gen: c.Gen, Msg: "deadline"})
+			c.Tr.Add(Event{Kind: "read_timeout", Gen: c.Gen, If: c.If, Msg: "deadline"})
 			return nil, nil, netip.Addr{}, ErrTimeout
 		}
 		if len(c.queue) > 0 {
@@ -232,10 +234,10 @@ func (c *Conn) ReadFrom() (ndp.Message, *ipv6.ControlMessage, netip.Addr, error)
 			c.queue = c.queue[1:]
 			c.mu.Unlock()
 			if in.Err != nil {
-				c.Tr.Add(Event{Kind: "read_error", Gen: c.Gen, ID: in.ID, Err: in.Err.Error()})
+				c.Tr.Add(Event{Kind: "read_error", Gen: c.Gen, If: c.If, ID: in.ID, Err: in.Err.Error()})
 				return nil, nil, netip.Addr{}, in.Err
 			}
-			c.Tr.Add(Event{Kind: "read_deliver", Gen: c.Gen, ID: in.ID, Src: in.From.String(), Msg: in.Msg.Type().String(), Val: int64(in.Hop)})
+			c.Tr.Add(Event{Kind: "read_deliver", Gen: c.Gen, If: c.If, ID: in.ID, Src: in.From.String(), Msg: in.Msg.Type().String(), Val: int64(in.Hop)})
 			return in.Msg, &ipv6.ControlMessage{HopLimit: in.Hop}, in.From, nil
 		}
 		c.reading = true
@@ -254,7 +256,7 @@ func (c *Conn) SetReadDeadline(t time.Time) error {
 	c.expired = !t.IsZero() && !t.After(time.Now())
 	exp := c.expired
 	c.mu.Unlock()
-	c.Tr.Add(Event{Kind: "deadline", Gen: c.Gen, Val: b2i(exp)})
+	c.Tr.Add(Event{Kind: "deadline", Gen: c.Gen, If: c.If, Val: b2i(exp)})
 	c.signal()
 	return nil
 }
@@ -272,7 +274,7 @@ func (c *Conn) WriteTo(m ndp.Message, _ *ipv6.ControlMessage, dst netip.Addr) er
 	n := c.writes
 	c.writes++
 	c.mu.Unlock()
-	ev := Event{Kind: "write_begin", Gen: c.Gen, ID: n, Dst: dst.String()}
+	ev := Event{Kind: "write_begin", Gen: c.Gen, If: c.If, ID: n, Dst: dst.String()}
 	ra, isRA := m.(*ndp.RouterAdvertisement)
 	if isRA {
 		x := model.FromNDP(ra)
@@ -292,7 +294,7 @@ func (c *Conn) WriteTo(m ndp.Message, _ *ipv6.ControlMessage, dst netip.Addr) er
 	if c.WriteErr != nil {
 		err = c.WriteErr(n, dst)
 	}
-	end := Event{Kind: "write_end", Gen: c.Gen, ID: n, Dst: dst.String(), Life: ev.Life}
+	end := Event{Kind: "write_end", Gen: c.Gen, If: c.If, ID: n, Dst: dst.String(), Life: ev.Life}
 	if err != nil {
 		end.Err = err.Error()
 	}
